@@ -794,6 +794,331 @@ def generate_past():
     return "\n".join(lines) + "\n"
 
 
+# ---------------------------------------------------------------------------------------------------------------------
+# dense-time offline monitor: intersection.py and the offline ast_visitor.py -> Rtamt/Py/GeneratedDense.lean
+# (sub-language and semantics: Rtamt/Py/Dn.lean)
+DENSE_INTER = "rtamt/semantics/stl/dense_time/offline/intersection.py"
+DENSE_VISITOR = "rtamt/semantics/stl/dense_time/offline/ast_visitor.py"
+OUT_DENSE = os.path.join(os.path.dirname(HERE), "lean", "Rtamt", "Py", "GeneratedDense.lean")
+
+
+class _Subst(ast.NodeTransformer):
+    def __init__(self, m):
+        self.m = m
+
+    def visit_Name(self, node):
+        if node.id in self.m:
+            return ast.copy_location(ast.Name(id=self.m[node.id], ctx=node.ctx), node)
+        return node
+
+
+class DnTr:
+    """Translator of a function / visit method of the dense-time offline monitor into `Rtamt.Py.Dn`."""
+
+    BUILTIN1 = {"len": "len", "list": "list", "abs": "abs", "float": "float", "math.sqrt": "math.sqrt", "math.exp": "math.exp",
+                "math.log": "math.log"}
+    BUILTIN2 = {"max": "max", "min": "min", "math.pow": "math.pow", "math.log": "math.log"}
+
+    def __init__(self, fn, module_funcs, visitor=False):
+        self.fn = fn
+        self.funcs = module_funcs          # name -> FunctionDef of the module (for `_append`, the one function that is inlined)
+        self.visitor = visitor
+        # a name may be changed in place only if every binding of it in the function is a freshly built list
+        self.fresh_only = {}
+        params = set(a.arg for a in fn.args.args)
+        for x in ast.walk(fn):
+            if isinstance(x, ast.Assign):
+                for t in x.targets:
+                    for nm in ([t] if isinstance(t, ast.Name) else (t.elts if isinstance(t, ast.Tuple) else [])):
+                        if isinstance(nm, ast.Name):
+                            ok = isinstance(t, ast.Name) and self.is_fresh_list(x.value)
+                            self.fresh_only[nm.id] = self.fresh_only.get(nm.id, True) and ok
+            elif isinstance(x, (ast.For,)):
+                for nm in ast.walk(x.target):
+                    if isinstance(nm, ast.Name):
+                        self.fresh_only[nm.id] = False
+        for p_ in params:
+            # a parameter that the function first of all replaces by a copy (`p = list(p)`) is a fresh list from then on
+            first = next((st for st in fn.body if any(isinstance(x, ast.Name) and x.id == p_ for x in ast.walk(st))), None)
+            copied = (isinstance(first, ast.Assign) and len(first.targets) == 1 and isinstance(first.targets[0], ast.Name)
+                      and first.targets[0].id == p_ and src(first.value) == "list(%s)" % p_)
+            if not (copied and self.fresh_only.get(p_, False)):
+                self.fresh_only[p_] = False
+
+    @staticmethod
+    def is_fresh_list(e):
+        if isinstance(e, ast.List) and not e.elts:
+            return True
+        if isinstance(e, ast.Call) and isinstance(e.func, ast.Name) and e.func.id == "list" and not e.keywords and len(e.args) <= 1:
+            return True
+        return False
+
+    def mutable(self, name):
+        return self.fresh_only.get(name, False)
+
+    def is_float_lit(self, e, what):
+        return (isinstance(e, ast.Call) and isinstance(e.func, ast.Name) and e.func.id == "float" and len(e.args) == 1
+                and not e.keywords and isinstance(e.args[0], ast.Constant) and isinstance(e.args[0].value, str)
+                and e.args[0].value.lower() in what)
+
+    def pure(self, e):
+        return not any(isinstance(x, ast.Call) for x in ast.walk(e))
+
+    def expr(self, e):
+        t = src(e)
+        un = lambda: "(.unsupported %s)" % q(t)
+        if self.visitor:
+            special = {"node.operator.value": "$operator", "node.val": "$val", "node.field": "$field",
+                       "self.ast.var_object_dict[node.var]": "$var"}
+            if t in special:
+                return "(.loc %s)" % q(special[t])
+            if isinstance(e, ast.Attribute) and e.attr == "value" and isinstance(e.value, ast.Attribute) \
+                    and src(e.value.value) == "StlComparisonOperator" and e.value.attr in CMP:
+                return "(.cmpc .%s)" % CMP[e.value.attr]
+            if isinstance(e, ast.Attribute) and isinstance(e.value, ast.Name) and e.value.id == "self":
+                return "(.loc %s)" % q("self." + e.attr)
+        if self.is_float_lit(e, ("inf", "infinity")):
+            return ".inf"
+        if self.is_float_lit(e, ("nan",)):
+            return ".nan"
+        if isinstance(e, ast.Constant):
+            if e.value is True or e.value is False:
+                return "(.boolLit %s)" % ("true" if e.value else "false")
+            if e.value is None:
+                return ".noneLit"
+            if isinstance(e.value, int):
+                return "(.int %d)" % e.value
+            return un()
+        if isinstance(e, ast.Name):
+            return "(.loc %s)" % q(e.id)
+        if isinstance(e, ast.Attribute) and isinstance(e.value, ast.Name) and e.value.id == "intersect":
+            return "(.fnRef %s)" % q(e.attr)
+        if isinstance(e, ast.UnaryOp) and isinstance(e.op, ast.USub):
+            return "(.neg %s)" % self.expr(e.operand)
+        if isinstance(e, ast.UnaryOp) and isinstance(e.op, ast.Not):
+            return "(.not %s)" % self.expr(e.operand)
+        if isinstance(e, ast.BinOp) and type(e.op) in BINOPS:
+            return "(.bin .%s %s %s)" % (BINOPS[type(e.op)], self.expr(e.left), self.expr(e.right))
+        if isinstance(e, ast.Compare) and all(type(o) in CMPOPS for o in e.ops):
+            operands = [e.left] + list(e.comparators)
+            if len(operands) > 2 and not all(self.pure(x) for x in operands[1:-1]):
+                return un()
+            parts = ["(.bin .%s %s %s)" % (CMPOPS[type(o)], self.expr(a), self.expr(b))
+                     for o, a, b in zip(e.ops, operands, operands[1:])]
+            out = parts[-1]
+            for p_ in reversed(parts[:-1]):
+                out = "(.and_ %s %s)" % (p_, out)
+            return out
+        if isinstance(e, ast.BoolOp):
+            c = ".and_" if isinstance(e.op, ast.And) else ".or_"
+            out = self.expr(e.values[-1])
+            for v in reversed(e.values[:-1]):
+                out = "(%s %s %s)" % (c, self.expr(v), out)
+            return out
+        if isinstance(e, ast.Subscript):
+            sl = e.slice
+            if isinstance(sl, ast.Slice):
+                if sl.upper is None and sl.step is None and isinstance(sl.lower, ast.Constant) and isinstance(sl.lower.value, int) \
+                        and sl.lower.value >= 0:
+                    return "(.sliceFrom %s %d)" % (self.expr(e.value), sl.lower.value)
+                return un()
+            return "(.idx %s %s)" % (self.expr(e.value), self.expr(sl))
+        if isinstance(e, ast.List):
+            if not e.elts:
+                return ".emptyList"
+            if len(e.elts) == 2:
+                return "(.list2 %s %s)" % (self.expr(e.elts[0]), self.expr(e.elts[1]))
+            return un()
+        if isinstance(e, ast.Tuple):
+            if len(e.elts) == 3:
+                return "(.tup3 %s)" % " ".join(self.expr(x) for x in e.elts)
+            if len(e.elts) == 4:
+                return "(.tup4 %s)" % " ".join(self.expr(x) for x in e.elts)
+            return un()
+        if isinstance(e, ast.Call) and not e.keywords and not any(isinstance(a, ast.Starred) for a in e.args):
+            f = src(e.func)
+            n = len(e.args)
+            if f == "list" and n == 0:
+                return ".emptyList"
+            if (n == 1 and f in self.BUILTIN1) or (n == 2 and f in self.BUILTIN2):
+                name = f
+            elif isinstance(e.func, ast.Name) and f != "_append":
+                name = f
+            elif isinstance(e.func, ast.Attribute) and isinstance(e.func.value, ast.Name) and e.func.value.id == "intersect":
+                name = e.func.attr
+            else:
+                return un()
+            if 1 <= n <= 4:
+                return "(.call%d %s %s)" % (n, q(name), " ".join(self.expr(a) for a in e.args))
+        return un()
+
+    def seq(self, items):
+        items = [i for i in items if i != ".skip"]
+        if not items:
+            return ".skip"
+        out = items[-1]
+        for i in reversed(items[:-1]):
+            out = "(.seq %s %s)" % (i, out)
+        return out
+
+    def block(self, stmts):
+        return self.seq([self.stmt(x) for x in stmts])
+
+    def target_name(self, t):
+        if isinstance(t, ast.Name):
+            return t.id
+        if self.visitor and isinstance(t, ast.Attribute) and isinstance(t.value, ast.Name) and t.value.id == "self":
+            return "self." + t.attr
+        return None
+
+    def stmt(self, st):
+        t = src(st)
+        un = "(.unsupported %s)" % q(t)
+        if isinstance(st, ast.Pass):
+            return ".skip"
+        if isinstance(st, ast.Assign) and len(st.targets) == 1:
+            tg = st.targets[0]
+            nm = self.target_name(tg)
+            if nm is not None:
+                return "(.setLoc %s %s)" % (q(nm), self.expr(st.value))
+            if isinstance(tg, ast.Tuple) and all(isinstance(x, ast.Name) for x in tg.elts):
+                return "(.unpack [%s] %s)" % (", ".join(q(x.id) for x in tg.elts), self.expr(st.value))
+            return un
+        if isinstance(st, ast.Expr) and isinstance(st.value, ast.Call) and not st.value.keywords:
+            c = st.value
+            if isinstance(c.func, ast.Attribute) and isinstance(c.func.value, ast.Name):
+                x, m, a = c.func.value.id, c.func.attr, c.args
+                if not self.mutable(x):
+                    return "(.unsupported %s)" % q(t + "  # in-place change of a list that may be shared")
+                if m == "append" and len(a) == 1:
+                    return "(.appendLoc %s %s)" % (q(x), self.expr(a[0]))
+                if m == "insert" and len(a) == 2 and isinstance(a[0], ast.Constant) and a[0].value == 0:
+                    return "(.insert0 %s %s)" % (q(x), self.expr(a[1]))
+                if m == "pop" and len(a) == 1:
+                    return "(.delIdx %s %s)" % (q(x), self.expr(a[0]))
+                return un
+            if isinstance(c.func, ast.Name) and c.func.id == "_append" and "_append" in self.funcs and len(c.args) == 2 \
+                    and isinstance(c.args[0], ast.Name):
+                # the one function that changes its argument in place: inlined, its locals renamed
+                f = self.funcs["_append"]
+                ps = [p_.arg for p_ in f.args.args]
+                if len(ps) != 2 or not self.mutable(c.args[0].id):
+                    return un
+                ren = {ps[0]: c.args[0].id, ps[1]: "_append$" + ps[1]}
+                for x in ast.walk(f):
+                    if isinstance(x, ast.Name) and x.id not in ren and isinstance(x.ctx, ast.Store):
+                        ren[x.id] = "_append$" + x.id
+                import copy
+                body = [_Subst(ren).visit(copy.deepcopy(b)) for b in f.body]
+                self.fresh_only.setdefault("_append$" + ps[1], False)
+                return self.seq(["(.setLoc %s %s)" % (q("_append$" + ps[1]), self.expr(c.args[1]))] + [self.stmt(b) for b in body])
+            return un
+        if isinstance(st, ast.Delete) and len(st.targets) == 1 and isinstance(st.targets[0], ast.Subscript) \
+                and isinstance(st.targets[0].value, ast.Name) and not isinstance(st.targets[0].slice, ast.Slice):
+            x = st.targets[0].value.id
+            if not self.mutable(x):
+                return "(.unsupported %s)" % q(t + "  # in-place change of a list that may be shared")
+            return "(.delIdx %s %s)" % (q(x), self.expr(st.targets[0].slice))
+        if isinstance(st, ast.If):
+            return "(.ite %s %s %s)" % (self.expr(st.test), self.block(st.body), self.block(st.orelse))
+        if isinstance(st, ast.While) and not st.orelse:
+            return "(.while_ %s %s)" % (self.expr(st.test), self.block(st.body))
+        if isinstance(st, ast.For) and not st.orelse:
+            it, tg = st.iter, st.target
+            if isinstance(tg, ast.Name):
+                return "(.forIn %s %s %s)" % (q(tg.id), self.expr(it), self.block(st.body))
+            if isinstance(tg, ast.Tuple) and len(tg.elts) == 2 and all(isinstance(x, ast.Name) for x in tg.elts):
+                rev = False
+                its = src(it)
+                inner = None
+                if isinstance(it, ast.Call) and src(it.func) == "enumerate" and len(it.args) == 1 and not it.keywords:
+                    inner = it.args[0]
+                elif its.startswith("reversed(list(enumerate(") and isinstance(it, ast.Call) and len(it.args) == 1 \
+                        and isinstance(it.args[0], ast.Call) and src(it.args[0].func) == "list" and len(it.args[0].args) == 1 \
+                        and isinstance(it.args[0].args[0], ast.Call) and src(it.args[0].args[0].func) == "enumerate" \
+                        and len(it.args[0].args[0].args) == 1:
+                    inner = it.args[0].args[0].args[0]
+                    rev = True
+                if inner is not None:
+                    return "(.forEnum %s %s %s %s %s)" % (q(tg.elts[0].id), q(tg.elts[1].id), self.expr(inner),
+                                                           "true" if rev else "false", self.block(st.body))
+            return un
+        if isinstance(st, ast.Return):
+            return "(.ret %s)" % (self.expr(st.value) if st.value is not None else ".noneLit")
+        if isinstance(st, ast.Raise) and isinstance(st.exc, ast.Call) and isinstance(st.exc.func, ast.Name):
+            return "(.raise .rtamt)" if st.exc.func.id == "RTAMTException" else "(.raise .other)"
+        return un
+
+
+def generate_dense():
+    lines = ["/- GENERATED by harness/py2lean.py from %s and %s of /repo on every run - do not edit. -/" % (DENSE_INTER, DENSE_VISITOR),
+             "import Rtamt.Py.Dn", "", "namespace Rtamt.Py.Gen.Dense", "open Rtamt Rtamt.Py.Dn", ""]
+    fn_names = []
+    for path in (DENSE_INTER, DENSE_VISITOR):
+        tree = ast.parse(open(os.path.join(REPO, path)).read())
+        funcs = {n.name: n for n in tree.body if isinstance(n, ast.FunctionDef)}
+        for name, f in funcs.items():
+            if name == "_append":
+                continue                    # inlined at its call sites
+            a = f.args
+            if a.vararg or a.kwarg or a.kwonlyargs or a.defaults:
+                body = "(.unsupported %s)" % q("signature of " + name)
+                params = []
+            else:
+                tr = DnTr(f, funcs)
+                params = [x.arg for x in a.args]
+                body = tr.block(f.body)
+            if name in fn_names:
+                lines.append("-- %s of %s shadows nothing: defined once per module; a second definition is reported" % (name, path))
+                body = "(.unsupported %s)" % q("two functions named " + name)
+                name_l = name + "'"
+            else:
+                name_l = name
+            lines.append("def fn_%s : Fn :=\n  { name := %s, params := [%s], body := %s }" % (
+                name_l.replace("'", "_dup"), q(name), ", ".join(q(x) for x in params), body))
+            lines.append("")
+            fn_names.append(name_l)
+    lines.append("/-- the module-level functions of intersection.py and of the visitor module, by name -/")
+    lines.append("def fns : List (String × Fn) := [%s]" % ", ".join("(%s, fn_%s)" % (q(n.replace("'", "")), n.replace("'", "_dup")) for n in fn_names))
+    lines.append("")
+    tree = ast.parse(open(os.path.join(REPO, DENSE_VISITOR)).read())
+    funcs = {n.name: n for n in tree.body if isinstance(n, ast.FunctionDef)}
+    cls = [n for n in tree.body if isinstance(n, ast.ClassDef) and n.name == "StlDenseTimeOfflineAstVisitor"][0]
+    last = {}
+    for m in cls.body:
+        if isinstance(m, ast.FunctionDef):
+            last[m.name] = m
+    names = []
+    for name, m in last.items():
+        if not name.startswith("visit") or name == "visit":
+            continue
+        if [x.arg for x in m.args.args] != ["self", "node"]:
+            continue
+        kids, interval, body = [], False, []
+        for st in m.body:
+            t = src(st)
+            if isinstance(st, ast.Assign) and len(st.targets) == 1 and isinstance(st.targets[0], ast.Name) \
+                    and isinstance(st.value, ast.Call) and src(st.value.func) == "self.visit" and len(st.value.args) >= 1 \
+                    and isinstance(st.value.args[0], ast.Subscript) and src(st.value.args[0].value) == "node.children" \
+                    and isinstance(st.value.args[0].slice, ast.Constant) and st.value.args[0].slice.value == len(kids) and not body:
+                kids.append(st.targets[0].id)
+                continue
+            if t.replace(" ", "") == "begin,end=self.time_unit_transformer(node)" and not body and not interval:
+                interval = True
+                continue
+            body.append(st)
+        tr = DnTr(m, funcs, visitor=True)
+        lines.append("def %s : DMethod :=\n  { name := %s, kids := [%s], interval := %s, body := %s }" % (
+            name, q(name), ", ".join(q(k) for k in kids), "true" if interval else "false", tr.block(body)))
+        lines.append("")
+        names.append(name)
+    lines.append("/-- the methods the class `StlDenseTimeOfflineAstVisitor` defines, by name -/")
+    lines.append("def methods : List (String × DMethod) := [%s]" % ", ".join("(%s, %s)" % (q(n), n) for n in names))
+    lines.append("")
+    lines.append("end Rtamt.Py.Gen.Dense")
+    return "\n".join(lines) + "\n"
+
+
 INTERP_FILE = "rtamt/semantics/discrete_time_interpreter.py"
 OUT_UNITS = os.path.join(os.path.dirname(HERE), "lean", "Rtamt", "Py", "GeneratedUnits.lean")
 
@@ -1409,6 +1734,7 @@ def main():
     write_if_changed(OUT_ONCTOR, generate_onctor())
     write_if_changed(OUT_IAOFF, generate_iaoff())
     write_if_changed(OUT_IAON, generate_iaon())
+    write_if_changed(OUT_DENSE, generate_dense())
     txt = generate()
     old = open(OUT).read() if os.path.exists(OUT) else None
     if txt != old:
